@@ -501,6 +501,11 @@ class CNF(SimpleSequence[Clause]):
     def assert_k_of_n(self, k: int, in_list: Sequence[Var]):
         # TODO DOC
         # TODO: Describe this function's purpose.
+        if in_list and k > len(in_list):
+            # More true variables than there are variables: the bits of `k`
+            # do not fit the saturating pop count, so assert falsity directly.
+            self._assert_unsatisfiable(in_list)
+            return
         in_binary =  int_to_binary(k)
         sum_bits = self.pop_count(in_list, len(in_binary)+1)
         # Add zero padding to the left.
@@ -521,7 +526,17 @@ class CNF(SimpleSequence[Clause]):
         # TODO DOC
         self._inequality_assertion(False, k, in_list)
 
+    def _assert_unsatisfiable(self, in_list: Sequence[Var]):
+        self.prepend(CNF([Clause(in_list[0]), Clause(~in_list[0])]))
+
     def _inequality_assertion(self, assert_less_than: bool, k: int, in_list: Sequence[Var]):
+        # The subtraction below has no room for a sign bit when `k` is out of
+        # range for the count of `in_list`; those requests are decided here.
+        if in_list and assert_less_than and k > len(in_list):
+            return
+        if in_list and not assert_less_than and k >= len(in_list):
+            self._assert_unsatisfiable(in_list)
+            return
         in_binary = int_to_binary(k)
         sum_bits = self.pop_count(in_list, len(in_binary)+1)
         k_vars = self.get_n_fresh(len(in_binary))
